@@ -53,7 +53,7 @@ type world struct {
 	done     map[string]string // identifier -> "COMMIT" | "ROLLBACK" (server forgot it)
 	events   []Event
 	count    map[string]int  // occurrences of each command kind so far (fault addressing)
-	faults   map[string]bool // "<KIND>:<n>" => the n-th (0-based) command of that kind fails
+	faults   map[string]string // "<KIND>:<n>" => the n-th (0-based) command of that kind fails with that error ("gen" | "badconn" | "ctx")
 	other    []string        // statements that are neither XA nor the business statement
 	slow     bool            // the next business statement takes a while
 }
@@ -63,10 +63,14 @@ func (w *world) nconnNow() int  { w.mu.Lock(); defer w.mu.Unlock(); return w.nco
 
 func newWorld(version string, faults []Fault) *world {
 	w := &world{version: version, open: map[int]bool{}, cur: map[int]string{}, branches: map[string]*xaBranch{},
-		done: map[string]string{}, count: map[string]int{}, faults: map[string]bool{}}
+		done: map[string]string{}, count: map[string]int{}, faults: map[string]string{}}
 	w.detach = versionGE(version, 8, 0, 29)
 	for _, f := range faults {
-		w.faults[fmt.Sprintf("%s:%d", f.Kind, f.Nth)] = true
+		e := f.Err
+		if e == "" {
+			e = "gen"
+		}
+		w.faults[fmt.Sprintf("%s:%d", f.Kind, f.Nth)] = e
 	}
 	return w
 }
@@ -83,7 +87,7 @@ func versionGE(v string, a, b, c int) bool {
 	return z >= c
 }
 
-func (w *world) faulted(kind string) bool {
+func (w *world) faulted(kind string) string {
 	n := w.count[kind]
 	w.count[kind] = n + 1
 	return w.faults[fmt.Sprintf("%s:%d", kind, n)]
@@ -113,9 +117,16 @@ func (w *world) exec(c int, q string) error {
 			w.mu.Lock()
 		}
 	}
-	if w.faulted(cmd) {
+	if fk := w.faulted(cmd); fk != "" {
+		// the command is not executed: the server's state is unchanged, the session stays usable
 		ev.Res = "fault"
 		w.events = append(w.events, ev)
+		switch fk {
+		case "badconn":
+			return driver.ErrBadConn
+		case "ctx":
+			return context.DeadlineExceeded
+		}
 		return errInjected
 	}
 	ev.Res = w.step(c, cmd, id)
